@@ -38,9 +38,7 @@ func poolD(ic string, tier string) []string {
 	if ic != "" {
 		d = append(d, poolIcpt...)
 	}
-	if tier == "thorough" {
-		d = append(d, poolGreedy...)
-	}
+	d = append(d, poolGreedy...) // a rule able to consume its own following literal text: shortest accepted text all the same
 	return d
 }
 
